@@ -44,6 +44,31 @@ pub fn generate(rng: &mut Rng, tier: Tier, stats: &mut GenStats) -> Scenario {
             taps: g.rng.chance(1, 2),
         });
     }
+    // Walks must not share hidden state: the second walker often repeats the first one's glob from
+    // another base, or another glob from the same base.
+    if nw == 2 {
+        match g.rng.below(4) {
+            0 | 1 => {
+                let other = g.pick_dir(&model, 20);
+                let src = walkers[0].source.clone();
+                if let Source::Glob { expr, rooted } = &src {
+                    if !prefix_touches_link(&model, &other, expr, *rooted) {
+                        walkers[1].source = src.clone();
+                        walkers[1].base = other;
+                    }
+                }
+            },
+            2 => {
+                let b = walkers[0].base.clone();
+                if let Source::Glob { expr, rooted } = &walkers[1].source.clone() {
+                    if !prefix_touches_link(&model, &b, expr, *rooted) && !expr.starts_with("..") {
+                        walkers[1].base = b;
+                    }
+                }
+            },
+            _ => {},
+        }
+    }
     let schedule = interleaving(g.rng, nw, tree.len());
     Scenario {
         prop: "C02".into(),
